@@ -2478,10 +2478,11 @@ class XonshParser(Parser):
         return None
 
     def any_cmd(self) -> Any | None:
-        # any_cmd: cmd_name | WS | KEYWORD
+        # any_cmd: cmd_name | WS | NL | KEYWORD
         return self.seq_alts(
             self.cmd_name,
             (self.token, "WS"),
+            (self.token, "NL"),
             self.keyword,
         )
 
